@@ -436,67 +436,101 @@ func VerifC04InvCustomSchemes() {
 	}
 }
 
-// symbolicRecord builds a URL record directly (not through the parser) from small shapes; every
-// symbolic byte is arbitrary, the invariant is assumed afterwards.
+// symbolicRecord builds a URL record directly (not through the parser): one of ten concrete background
+// records of all shapes, in which exactly ONE component is then replaced by a symbolic variant (arbitrary
+// bytes; a scheme out of six); the invariant is assumed afterwards. (The full cross product of symbolic
+// components - the first version of this harness - is 10^4 shapes x byte classes and never finished.)
 func symbolicRecord() *Url {
 	u := defaultParser.NewUrl()
-	schemes := []string{"http", "https", "ws", "file", "a", "ftp"}
-	u.scheme = schemes[vnd.Pick(len(schemes))]
-	switch vnd.Pick(3) {
-	case 1:
-		u.username = vnd.Str(1)
-	case 2:
-		u.username = vnd.Str(1)
-		u.password = vnd.Str(1)
-	}
-	switch vnd.Pick(6) {
-	case 0: // null host
-	case 1:
-		u.host = new(string)
-	case 2:
-		h := "h" + vnd.Str(1)
-		u.host = &h
-	case 3:
-		h := "1.2.3.4"
-		u.host = &h
-	case 4:
-		h := "[::1]"
-		u.host = &h
-	case 5:
-		h := vnd.Str(1)
-		u.host = &h
-	}
-	switch vnd.Pick(3) {
-	case 1:
-		p := vnd.StrOver(vnd.Len(2), "0189")
-		u.port = &p
-	case 2:
-		p := "65535"
-		u.port = &p
-	}
-	switch vnd.Pick(4) {
+	str := func(s string) *string { return &s }
+	// background: scheme, username, password, host, port, opaque?, segments/opaque text, query, fragment
+	switch vnd.Pick(10) {
 	case 0:
-		u.path.setOpaque(vnd.Str(vnd.Len(2)))
-	case 1: // empty segment list
+		u.scheme, u.username, u.password, u.host, u.port = "http", "u", "p", str("h"), str("8")
+		u.path.addSegment("a")
+		u.path.addSegment("b")
+		u.query, u.fragment = str("q"), str("f")
+	case 1:
+		u.scheme, u.host = "https", str("h")
+		u.path.addSegment("")
 	case 2:
-		u.path.addSegment(vnd.Str(vnd.Len(2)))
+		u.scheme, u.host = "file", str("")
+		u.path.addSegment("C:")
+		u.path.addSegment("d")
 	case 3:
-		u.path.addSegment(vnd.Str(vnd.Len(1)))
+		u.scheme, u.host = "file", str("h")
+		u.path.addSegment("d")
+		u.query = str("")
+	case 4:
+		u.scheme, u.username, u.host, u.port = "a", "u", str("h"), str("8")
+		u.path.addSegment("p")
+		u.fragment = str("")
+	case 5:
+		u.scheme = "a"
+		u.path.setOpaque("b ")
+		u.query, u.fragment = str("q"), str("f")
+	case 6:
+		u.scheme = "a"
+		u.path.setOpaque("b  ")
+		u.fragment = str("f")
+	case 7:
+		u.scheme = "a"
+		u.path.addSegment("")
+		u.path.addSegment("")
+		u.path.addSegment("p")
+	case 8:
+		u.scheme, u.host = "a", str("")
+	case 9:
+		u.scheme, u.host, u.port = "ws", str("1.2.3.4"), str("65535")
+		u.path.addSegment("p")
+	}
+	// the one symbolic component
+	switch vnd.Pick(9) {
+	case 0:
+		u.scheme = []string{"http", "https", "ws", "file", "a", "ftp"}[vnd.Pick(6)]
+	case 1:
+		u.username = vnd.Str(vnd.Len(1))
+		u.password = vnd.Str(vnd.Len(1))
+	case 2:
+		switch vnd.Pick(4) {
+		case 0:
+			u.host = nil
+		case 1:
+			u.host = str("h" + vnd.Str(1))
+		case 2:
+			u.host = str(vnd.Str(vnd.Len(1)))
+		case 3:
+			u.host = str("[::1]")
+		}
+	case 3:
+		if vnd.Bool() {
+			u.port = nil
+		} else {
+			u.port = str(vnd.StrOver(vnd.Len(2), "0189"))
+		}
+	case 4:
+		u.path = &path{}
+		u.path.setOpaque(vnd.Str(vnd.Len(2)))
+	case 5:
+		u.path = &path{}
+		n := vnd.Pick(3)
+		for i := 0; i < n; i++ {
+			u.path.addSegment(vnd.Str(vnd.Len(1)))
+		}
+	case 6:
 		u.path.addSegment(vnd.Str(vnd.Len(2)))
-	}
-	switch vnd.Pick(3) {
-	case 1:
-		u.query = new(string)
-	case 2:
-		q := vnd.Str(1)
-		u.query = &q
-	}
-	switch vnd.Pick(3) {
-	case 1:
-		u.fragment = new(string)
-	case 2:
-		f := vnd.Str(1)
-		u.fragment = &f
+	case 7:
+		if vnd.Bool() {
+			u.query = nil
+		} else {
+			u.query = str(vnd.Str(vnd.Len(1)))
+		}
+	case 8:
+		if vnd.Bool() {
+			u.fragment = nil
+		} else {
+			u.fragment = str(vnd.Str(vnd.Len(1)))
+		}
 	}
 	return u
 }
@@ -513,7 +547,7 @@ func VerifC04InvStep() {
 	vnd.Cover("inductive-pre-state", true)
 	href := pre.Href(false)
 	op := vnd.Pick(10)
-	arg := vnd.Str(vnd.Len(vnd.Param("C04.KStep", 1, 1)))
+	arg := vnd.Str(vnd.Len(vnd.Param("C04.KStep", 1, 2)))
 	post := applyOp(pre, op, arg)
 	v := verifCheckInvViolation(post, defaultSchemeTable)
 	if v == "" {
